@@ -372,6 +372,26 @@ def run_check(prop: str, tier: str) -> int:
             else:
                 lines.append(f"  note: recorded finding {kf['id']} does not reproduce on this tree "
                              "(its pinned scenario passes)")
+        # regression scenarios: minimised scenarios of defects that were found (often only at the
+        # thorough tier) and repaired; executed in every check, judged like any sampled run
+        reg_dir = os.path.join(VERIF_ROOT, "regressions", prop)
+        n_reg = 0
+        if os.path.isdir(reg_dir):
+            for name in sorted(os.listdir(reg_dir)):
+                if not name.endswith(".json"):
+                    continue
+                with open(os.path.join(reg_dir, name)) as f:
+                    rp = json.load(f)
+                r0 = z0.call({"cmd": "exec", "scenario": rp["scenario"], "timeout": m["timeout"][tier]})
+                n_reg += 1
+                if "harness_error" in r0:
+                    print(f"HARNESS-ERROR executing regression scenario {name}: {r0['harness_error']}")
+                    exit_code = 2
+                elif r0["violations"]:
+                    mg["failures"].append({"i": -n_reg, "seed": f"regression:{name}", "scenario": rp["scenario"],
+                                           "violations": r0["violations"], "digest": r0["digest"]})
+                    mg["n_failures"] += 1
+        mg["counters"]["regression_scenarios_executed"] = n_reg
         cf_findings = [f for f in findings.get("findings", [])
                        if f.get("property") == prop and f.get("counterfactual")]
         timeout = m["timeout"][tier]
